@@ -423,8 +423,8 @@ def run(ctx: Check, tree: Tree) -> None:
         "symbols introduced by custom dynamics builders or custom alignments",
     ]
     ctx.assumptions += ["SymPy symbols with equal names and different assumptions are different objects", "HelicityAdapter.create_expressions defines every invariant-mass symbol of the registered topologies"]
-    check_domain(ctx, tree)
-    check_sympairs(ctx, tree)
-    check_xstore(ctx, tree)
-    check_create(ctx, tree)
-    check_backsubstitution(ctx, tree)
+    ctx.section(check_domain, ctx, tree)
+    ctx.section(check_sympairs, ctx, tree)
+    ctx.section(check_xstore, ctx, tree)
+    ctx.section(check_create, ctx, tree)
+    ctx.section(check_backsubstitution, ctx, tree)
